@@ -34,7 +34,23 @@ pub mod shadow {
     #[macro_export] macro_rules! __shadow_unreachable { () => { compile_error!("relative unreachable! captured") } }
 }
 '''
-PRELUDE = '''
+LQ = '''
+pub struct Lq<'x>(pub ::core::marker::PhantomData<&'x ()>);
+macro_rules! lq_bin { ($tr:ident, $f:ident) => {
+    impl<'x> ::core::ops::$tr<Lq<'x>> for Lq<'x> { type Output = Lq<'x>; fn $f(self, _r: Lq<'x>) -> Lq<'x> { self } }
+    impl<'x, 'y> ::core::ops::$tr<&'y Lq<'x>> for Lq<'x> { type Output = Lq<'x>; fn $f(self, _r: &'y Lq<'x>) -> Lq<'x> { self } }
+    impl<'x, 'y> ::core::ops::$tr<Lq<'x>> for &'y Lq<'x> { type Output = Lq<'x>; fn $f(self, r: Lq<'x>) -> Lq<'x> { r } }
+    impl<'x, 'y, 'z> ::core::ops::$tr<&'z Lq<'x>> for &'y Lq<'x> { type Output = Lq<'x>; fn $f(self, _r: &'z Lq<'x>) -> Lq<'x> { Lq(::core::marker::PhantomData) } }
+} }
+macro_rules! lq_asg { ($tr:ident, $f:ident) => {
+    impl<'x> ::core::ops::$tr<Lq<'x>> for Lq<'x> { fn $f(&mut self, _r: Lq<'x>) {} }
+    impl<'x, 'y> ::core::ops::$tr<&'y Lq<'x>> for Lq<'x> { fn $f(&mut self, _r: &'y Lq<'x>) {} }
+} }
+lq_bin!(Add, add); lq_bin!(BitXor, bitxor); lq_asg!(SubAssign, sub_assign); lq_asg!(ShlAssign, shl_assign);
+impl<'x> ::core::ops::Not for Lq<'x> { type Output = Lq<'x>; fn not(self) -> Lq<'x> { self } }
+impl<'x, 'y> ::core::ops::Not for &'y Lq<'x> { type Output = Lq<'x>; fn not(self) -> Lq<'x> { Lq(::core::marker::PhantomData) } }
+'''
+PRELUDE = LQ + '''
 pub struct Rec(pub ::std::string::String);
 impl ::core::hash::Hasher for Rec {
     fn finish(&self) -> u64 { 0 }
@@ -74,8 +90,11 @@ def build(names, shape, traits, mode, with_attrs, const_name=None):
     deref = 'Deref' in traits
     ftypes = [sx.tref(sx.tid('u8'), lt=names['lt']), P, sx.tarray(sx.tid('u8'), sx.cpath([cp])), sx.tid('u8')]
     if ops:
-        ftypes = [sx.tid('u8'), sx.tid('u8'), sx.tid('u8'), sx.tid('u8')]
-        params = []
+        # operators: a type parameter (so that the per-field-type where-bounds with their `for<'..>` binders are
+        # emitted) next to a user lifetime, carried by the prelude type `Lq<'x>` which implements every operator form
+        lq = sx.tpath([sx.seg('Lq', ('angle', [sx.glt(names['lt'])]))])
+        ftypes = [P, lq, sx.tid('u8'), sx.tid('u8')]
+        params = [sx.gp_lt(names['lt']), sx.gp_ty(names['tp'])]
     if deref:
         params = [sx.gp_ty(names['tp'])]
         ftypes = [P]
@@ -158,9 +177,10 @@ class C13(Prop):
                     gid += 1
                     mode = 'attr' if gid % 2 else 'derive'
                     rens = [NEUTRAL]
-                    for _ in range(self.n_ren(tier)):
+                    for j in range(self.n_ren(tier)):
                         tn = rng.sample(TYPE_NAMES, 6)
-                        rens.append(dict(ty=tn[0], tp=tn[1], lt=rng.choice(LIFETIMES), cp=rng.choice(CONST_NAMES),
+                        # the first renaming of every group uses the lifetime name the generator once used itself
+                        rens.append(dict(ty=tn[0], tp=tn[1], lt='a' if j == 0 else rng.choice(LIFETIMES), cp=rng.choice(CONST_NAMES),
                                          fields=rng.sample(FIELD_NAMES, 4), variants=tn[2:5]))
                     for ri, names in enumerate(rens):
                         out.append((gid, ri, names, shape, traits, mode, with_attrs, None))
@@ -230,8 +250,8 @@ class C13(Prop):
         nbat = [('c13n_%d' % k, nostd[k::nb]) for k in range(nb)]
         allow = '#![allow(dead_code, unused_variables, unused_imports, non_camel_case_types, non_snake_case, non_upper_case_globals, unused_macros)]\n'
         exes = l2.compile_parallel(pb, prelude=PRELUDE, crate_attrs=allow)
-        l2.compile_parallel(sb, prelude=SHADOW, check_only=True, crate_attrs=allow)
-        l2.compile_parallel(nbat, prelude='', check_only=True, crate_attrs='#![no_std]\n' + allow)
+        l2.compile_parallel(sb, prelude=SHADOW + LQ, check_only=True, crate_attrs=allow)
+        l2.compile_parallel(nbat, prelude=LQ, check_only=True, crate_attrs='#![no_std]\n' + allow)
         obs = {}
         for name, exe in exes.items():
             if exe:
